@@ -368,11 +368,11 @@ func probeFacts(sb *strings.Builder) {
 		}
 		fmt.Fprintf(sb, "  (%q, [%s])%s\n", st, strings.Join(l, ", "), sep)
 	}
-	sb.WriteString("/-- PROBE: seen from inside the connection write of the closing tag, per closing path:\n(tag reached the connection, closed bit already set, State() readable, output lock held, closing tags in total) -/\n")
+	sb.WriteString("/-- PROBE: seen from inside the connection write of the closing tag, per closing path:\n([tag reached the connection, closed bit already set, State() readable, output lock held], closing tags in total) -/\n")
 	var l []string
 	for _, w := range closeWays {
 		seen, bit, rd, lk, tags := closeWriteCell(w)
-		l = append(l, fmt.Sprintf("(%q, %v, %v, %v, %v, %d)", w, seen, bit, rd, lk, tags))
+		l = append(l, fmt.Sprintf("(%q, [%v, %v, %v, %v], %d)", w, seen, bit, rd, lk, tags))
 	}
-	fmt.Fprintf(sb, "def closeWriteProbe : Option (List (String × Bool × Bool × Bool × Bool × Nat)) := some [\n  %s]\n", strings.Join(l, ",\n  "))
+	fmt.Fprintf(sb, "def closeWriteProbe : Option (List (String × List Bool × Nat)) := some [\n  %s]\n", strings.Join(l, ",\n  "))
 }
